@@ -3,7 +3,7 @@ import copy
 import html
 import re
 
-from harness.core import Property
+from harness.core import Property, CaseTimeout
 from harness.props import markup_common as mc
 from harness.props.markup_common import S, M, B, I
 
@@ -224,6 +224,7 @@ class C11(Property):
             "ampersand, ;, #, control characters, NUL, closing-tag look-alikes, half-finished references, non-BMP.  non-trivial = "
             "some data string contains one of \" < > & or a control character; distinct = distinct canonical case JSON")
     quick_n = 100000
+    case_timeout = 60      # the machine is shared: a stalled worker must not look like a hang of the library
     thorough_n = 600000
 
     # ------------------------------------------------------------------ cases
@@ -276,6 +277,8 @@ class C11(Property):
             out = _render(case)
         except AssertionError:
             raise
+        except CaseTimeout:
+            raise
         except Exception as e:  # noqa
             return {"out": None, "err": type(e).__name__, "parsed": None}
         parsed = None
@@ -297,6 +300,8 @@ class C11(Property):
         try:
             out = _render(case)
         except AssertionError:
+            raise
+        except CaseTimeout:
             raise
         except Exception as e:  # noqa
             return [{"clause": "renders", "expected": "markup", "observed": type(e).__name__}]
